@@ -499,6 +499,15 @@ def parseOperatorConversion (F : Nat) (c : Core) (mods : Mods) (location : LocRe
 
 /-! ### classes and enums -/
 
+/-- one leading `const` / `volatile` of a declarator that follows a class or enum body: it is set on the (shared) type -/
+def leadCvBody (pt : DType) : M (DType ⊕ DType) := do
+  match (← tokenIf ["const", "volatile"]) with
+  | none => pure (.inr pt)
+  | some t =>
+    match (if t.type = "const" then setConst pt else setVolatile pt) with
+    | some d => pure (.inl d)
+    | none => pure (.inr pt)
+
 /-- `_finish_class_or_enum(name, is_typedef, mods, classkey)` -/
 def finishClassOrEnum (F : Nat) (c : Core) (name : PQName) (isTypedef : Bool) (mods : Mods)
     (classkey : Option String) : M Unit := do
@@ -530,13 +539,7 @@ def finishClassOrEnum (F : Nat) (c : Core) (name : PQName) (isTypedef : Bool) (m
     -- leading qualifiers here (the same tokens, in the same order, with the same effect on the object).
     loopN F parsedType (fun pt => do
       let location ← currentLocation
-      let pt ← loopN F pt (fun pt => do
-        match (← tokenIf ["const", "volatile"]) with
-        | none => pure (.inr pt)
-        | some t =>
-          match (if t.type = "const" then setConst pt else setVolatile pt) with
-          | some d => pure (.inl d)
-          | none => pure (.inr pt))
+      let pt ← loopN F pt leadCvBody
       if (← parseDecl F c pt mods location none .none isTypedef false) then pure (.inr ())
       else do
         let tok ← nextTokenMustBe [",", ";"]
